@@ -533,7 +533,7 @@ def effects(N, body):
 _IDENT = re.compile(r"[A-Za-z_][A-Za-z_0-9]*")
 
 
-def equal_up_to_renaming(got, want, max_names=3):
+def equal_up_to_renaming(got, want, max_names=3, canon=None):
     """Two signatures (lists of strings) that differ only by a one-to-one renaming of at most `max_names` identifiers that occur on one
     side only - a private field or local type renamed consistently (`last_cursor` -> `reader_pos`, `regex` -> `matcher`).  A wrong operand
     uses a name that exists on both sides and is not affected."""
@@ -549,6 +549,8 @@ def equal_up_to_renaming(got, want, max_names=3):
     for perm in itertools.permutations(ow):
         ren = dict(zip(og, perm))
         g2 = sorted(_IDENT.sub(lambda m: ren.get(m.group(0), m.group(0)), x) for x in g)
-        if g2 == w:
+        if canon is not None:
+            g2 = sorted(canon(x) for x in g2)
+        if g2 == (sorted(canon(x) for x in w) if canon is not None else w):
             return True
     return False
